@@ -312,8 +312,15 @@ pub(crate) fn unpack_dictionary<K: ArrowDictionaryKeyType>(
     to_type: &DataType,
     cast_options: &CastOptions,
 ) -> Result<ArrayRef, ArrowError> {
-    let cast_dict_values = cast_with_options(array.values(), to_type, cast_options)?;
-    take(cast_dict_values.as_ref(), array.keys(), None)
+    match cast_with_options(array.values(), to_type, cast_options) {
+        Ok(cast_dict_values) => take(cast_dict_values.as_ref(), array.keys(), None),
+        // The failing dictionary value may not be referenced by any key: cast the rows instead
+        Err(_) if !cast_options.safe => {
+            let unpacked = take(array.values().as_ref(), array.keys(), None)?;
+            cast_with_options(unpacked.as_ref(), to_type, cast_options)
+        }
+        Err(e) => Err(e),
+    }
 }
 
 /// Pack a data type into a dictionary array passing the values through a primitive array
